@@ -219,6 +219,8 @@ func Files() []*descriptorpb.FileDescriptorProto {
 	sh.message("dur", 72, ".google.protobuf.Duration")
 	sh.message("anys", 73, ".google.protobuf.Any").Label = descriptorpb.FieldDescriptorProto_LABEL_REPEATED.Enum()
 	sh.mapField("tsmap", 74, "string", descriptorpb.FieldDescriptorProto_TYPE_MESSAGE, ".google.protobuf.Timestamp")
+	sh.mapField("anymap", 75, "string", descriptorpb.FieldDescriptorProto_TYPE_MESSAGE, ".google.protobuf.Any")
+	sh.mapField("durmap", 76, "int32", descriptorpb.FieldDescriptorProto_TYPE_MESSAGE, ".google.protobuf.Duration")
 
 	sh.scalar("type", 80, typeOf("string"))
 	sh.scalar("descriptor", 81, typeOf("int32"))
@@ -297,6 +299,7 @@ func Files() []*descriptorpb.FileDescriptorProto {
 	clinkB.message("hop", 1, chop.full) // a cycle of three
 	chop.message("node", 1, cnodeB.full)
 	chop.scalar("n", 2, typeOf("uint32"))
+	ex.mapField("shapes_by_name", 8, "string", descriptorpb.FieldDescriptorProto_TYPE_MESSAGE, sh.full)
 	ex.message("cycle", 6, cnode.full)
 	ex.message("cycle_b", 7, clinkB.full)
 	extraFD := &descriptorpb.FileDescriptorProto{
